@@ -27,6 +27,7 @@ META = {
     "trusted_base": ["rustc MIR construction", "std::mem::replace", "std::sync::RwLock", "readlock / readlock-tokio SharedReadLock::lock yields a read guard"],
     "assumptions": ["PartialEq / Hash of the user's T are deterministic", "the 64-bit version counter does not wrap"],
 }
+META["explanation"] += ' Shared clauses: R04.3 (next_now / next_ref_now read the value and mark the version under one guard) and the close / wake group.'
 
 STATE = "state::ObservableState::<T>::"
 CALL_CLOSURE = r"(FnOnce|FnMut|Fn)(<.*>>?)?::call(_once|_mut)?$"
@@ -66,10 +67,10 @@ def logical_bodies(F, fn):
 def run(ctx):
     F = ctx.facts
     notify = find_notify_fn(F)
-    if len(notify) != 1:
-        ctx.missing("R01.1", "notify function (role: adds 1 to metadata.version) - found %d" % len(notify))
+    if not notify:
+        ctx.missing("R01.1", "notify function (role: adds 1 to metadata.version) - found 0")
         return
-    notify = notify[0]
+    notify = NotifySet(notify)   # usually one; a second function that bumps the version is judged by the same rules, not refused
     closes = find_close_fn(F)
     sentinel = closes[0][2] if len(closes) == 1 else None
     if sentinel is None:
@@ -91,11 +92,23 @@ def run(ctx):
     r01_10(ctx)
     r01_11(ctx)
     r01_12(ctx)
-    from . import groups
+    from . import groups, c04
+    c04.r04_3(ctx)  # the value handed out and the version marked as observed must come from one guard, else an update is skipped
     groups.eyeball_close_and_wake(ctx)  # a premature or missing close makes next() ready (None) / pending at the wrong time
 
 
 # ---------------------------------------------------------------------------
+
+class NotifySet(list):
+    """the functions that bump the version (role: notify)."""
+    @property
+    def name(self):
+        return "/".join(f.name for f in self)
+
+    @property
+    def keys(self):
+        return {f.key for f in self}
+
 
 def value_borrowers(F):
     out = []
@@ -120,7 +133,7 @@ def value_borrowers(F):
 
 def notifying_callees(F, notify):
     """state fns that notify on every path (fixpoint: notify itself, and fns post-dominated by calls to such fns)."""
-    good = {notify.key}
+    good = set(notify.keys)
     changed = True
     while changed:
         changed = False
@@ -329,7 +342,7 @@ def r01_5(ctx, notify, close, sentinel):
         if not b:
             continue
         for loc, s in assigns_to_field(b, "version"):
-            if f is notify:
+            if any(f is n_ for n_ in notify):
                 e = b.expr_of_rv(s["rv"], 8, ())
                 adds = find_all(e, lambda x: x[0] == "bin" and x[1].startswith("Add"))
                 ok = bool(adds) and is_const_int(adds[0][3], 1) and mentions_field(adds[0][2], "version")
@@ -469,8 +482,17 @@ def r01_6(ctx, init):
 def r01_7(ctx, init):
     F = ctx.facts
     n = 0
-    for f in F.find(crate=EY):
-        b = f.built
+    # anchors: the public subscribe functions (their names cannot change without a breaking release); private helpers
+    # between them and the subscriber constructor are inlined, so extracting one does not move the instance
+    ctor = [c for c in F.find(crate=EY) if c.name in ("new", "new_async") and (c.raw.get("self_ty") or "").startswith("subscriber::Subscriber<")]
+    pubs = [f for f in F.find(crate=EY) if re.match(r"subscribe(_reset)?(_async)?$", f.name or "") and f.vis == "pub"
+            and re.match(r"(shared::SharedObservable|unique::Observable)<", f.raw.get("self_ty") or "")]
+    bodies = []
+    for pf in pubs:
+        for lb in logical_bodies(F, pf):
+            bodies.append(lb)
+    for f in bodies:
+        b = inl(F, f, *ctor)
         if not b:
             continue
         root = root_fn(F, f)
@@ -542,9 +564,18 @@ def r01_8(ctx):
         if base == "take":
             calls = [(blk, t) for blk, t in b.calls() if F.local_callee(main, t) is not None and (F.local_callee(main, t).name or "").replace("_async", "") == "set"
                      and F.local_callee(main, t).raw.get("self_ty") == st]
-            ok = len(calls) == 1 and mentions_call(b.expr_of_op(calls[0][1]["args"][1]), r"Default>?::default$")
-            ctx.verdict(ok if calls else False, "R01.8", f, "take=set(default)", f.loc(), "take calls Self::set(this, T::default())",
-                        "take does not go through set(T::default())")
+            if calls:
+                ok = len(calls) == 1 and mentions_call(b.expr_of_op(calls[0][1]["args"][1]), r"Default>?::default$")
+                ctx.verdict(ok, "R01.8", f, "take=set(default)", f.loc(), "take calls Self::set(this, T::default())",
+                            "take does not go through set(T::default())")
+                continue
+            # written against the state directly: exactly one state call, `set`, with T::default() as the value
+            scalls = [(blk, t) for blk, t in b.calls() if F.local_callee(main, t) in state_fns(F)]
+            names = [F.local_callee(main, t).name for _, t in scalls]
+            ok = names == ["set"] and mentions_call(b.expr_of_op(scalls[0][1]["args"][1]), r"Default>?::default$") \
+                and strip(ret_expr(b), through_calls=False)[0] == "call" and strip(ret_expr(b), through_calls=False)[4] == (scalls[0][0], len(b.blocks[scalls[0][0]]["stmts"]))
+            ctx.verdict(ok, "R01.8", f, "take=set(default)", f.loc(), "take calls ObservableState::set(T::default()) once and returns its result",
+                        "take does not go through set(T::default()) (state calls: %s)" % (names or "none"))
             continue
         scalls = [(blk, t) for blk, t in b.calls() if F.local_callee(main, t) in state_fns(F)]
         ctx.call_sites += len(scalls)
